@@ -464,6 +464,12 @@ def compute_integral_ir(
                 needs_facet_permutations = (
                     "+" in restrictions and "-" in restrictions
                 ) or is_mixed_dim
+            if not needs_facet_permutations:
+                # A kernel that indexes a table by quadrature_permutation reads that
+                # argument: the flag must say so also when only one side is involved
+                needs_facet_permutations = any(
+                    v.get("tr") is not None and v["tr"].is_permuted for v in F.nodes.values()
+                )
 
     return IntermediateIntegralIR(
         needs_facet_permutations=needs_facet_permutations,
